@@ -230,6 +230,9 @@ ApplyTo(r, payload, emit, outcome, wire, o, nev, hasfol, fol, extra(_, _, _)) ==
       CL == IF cfg[r].cf THEN {x \in Ids(emit.del) : x \in DOMAIN E2 /\ IsMark(E2, x)} \ ddel2 ELSE {}
       XD2 == XD \cup CL
       R2 == ObsRep(o, R.dlv \cup InsIds(us), ddel2 \cup CL)
+      \* implementation-level prediction (drift only): the transcription of TransactionMut::cleanup_fmt in Rich.tla, run on
+      \* the recorded lists with the tombstones / insertions / deletions the transaction had made before the clean-up
+      PredCL == UNION {CleanupFmt(E2, R2.lst[c], R2.dead \ CL, InsIds(emit.ins), Ids(emit.del) \ CL) : c \in MarkedConts(E2, R2)}
       ok == WellFormed(E2, o)
       changed == Have(R2) # Have(R) \/ (R2.dead \cup R2.gone) # (R.dead \cup R.gone)
       chk == IF ~ok THEN << <<"C04_Placed", FALSE>> >>
@@ -248,6 +251,7 @@ ApplyTo(r, payload, emit, outcome, wire, o, nev, hasfol, fol, extra(_, _, _)) ==
       dr == (IF ok /\ ~PlacementPredicted(E2, R, R2) THEN {"placement"} ELSE {})
             \cup (IF ok /\ ~StashTight(R2) THEN {"stash-not-tight"} ELSE {})
             \cup (IF ok THEN StrongDrift(E2, XD2, UserDel, r, R2) ELSE {})
+            \cup (IF ok /\ cfg[r].cf /\ PredCL # CL THEN {"cleanup-set"} ELSE {})
   IN /\ Record(Failing(chk), dr)
      /\ E' = E2 /\ XD' = XD2 /\ U' = U /\ SEEN' = SEEN
      /\ S' = [S EXCEPT ![r] = R2]
